@@ -218,17 +218,20 @@ async def run_case(nworkers, plan_, nids, counters, seed):
 
             st.get_event, st.notify_all_connected = make(orig_get, orig_notify, log)
             st.notifier = notifier.NotifyClient(st, port=lp)
-            st.notifier.start()
-            # an event accepted before the notifier client is connected: announcing it fails
-            # (no writer yet); that failure must stay without consequences for later events
+            # an event accepted before the notifier client is connected (the real client waits
+            # 2 s before connecting): announcing it fails - no writer yet; that failure must stay
+            # without consequences for later events
             early = ref.make_event(ref.key_from_seed("c20"), kind=1, created_at=gen.T0 - 100 - w, content="early-%d-%d" % (seed, w))
             early_ids.add(early["id"])
             try:
                 await st.add_event(early)
+                for _ in range(5):
+                    await asyncio.sleep(0)
                 counters["early_events"] = counters.get("early_events", 0) + 1
             except Exception as e:
                 viols.append({"key": "early-event-raised", "msg": "add_event raised %r for an event accepted before the notifier connected" % (e,),
                               "replay": {"workers": nworkers, "plan": list(plan_), "ids": nids, "seed": seed}})
+            st.notifier.start()
             c = rig.connect("sub%d" % w, storage=st)
             await c.cmd(["REQ", "s", {"kinds": [1], "since": gen.T0 + 1}])
             subs.append(c)
